@@ -729,9 +729,10 @@ func (fr *Frame) makeInterface(i *ssa.MakeInterface, st *State, g Term) {
 	case KAny:
 		if pv, ok := v.(PV); ok {
 			// pointer to a cell wrapped in an interface: keep the reference when the
-			// pointee is not tree data, otherwise snapshot
+			// pointee is not tree data or the interface only travels to library calls
+			// (json.Unmarshal(data, &x)); otherwise snapshot
 			es := x.load(pv, st).Sort
-			if !x.eng.isTreeSort(es) {
+			if !x.eng.isTreeSort(es) || onlyLibCallOperand(i, x.eng) {
 				fr.regs[i] = IfaceRef{P: pv}
 				return
 			}
@@ -827,6 +828,27 @@ func (fr *Frame) isGhostOperand(i *ssa.MakeInterface) bool {
 			if _, isDbg := r.(*ssa.DebugRef); isDbg {
 				continue
 			}
+			return false
+		}
+	}
+	return true
+}
+
+func onlyLibCallOperand(i *ssa.MakeInterface, e *Engine) bool {
+	refs := i.Referrers()
+	if refs == nil || len(*refs) == 0 {
+		return false
+	}
+	for _, r := range *refs {
+		if _, isDbg := r.(*ssa.DebugRef); isDbg {
+			continue
+		}
+		c, ok := r.(*ssa.Call)
+		if !ok {
+			return false
+		}
+		callee := c.Call.StaticCallee()
+		if callee == nil || e.inRepo(callee) {
 			return false
 		}
 	}
